@@ -27,25 +27,32 @@ type c20fault struct {
 	setup []string // statements before the faulting one
 	expr  string   // int-valued faulting expression ("" for statement faults)
 	stmt  string   // faulting statement (statement faults)
+	off   int      // expr spanning several lines: offset of the line holding the failing operator (the line the Go toolchain reports)
 }
 
 var c20faults = []c20fault{
-	{"slice index, constant (FASTGETINT)", []string{"s := []int{1}"}, "s[5]", ""},
-	{"slice index, variable", []string{"s := []int{1}", "i := 5"}, "s[i]", ""},
-	{"global slice index", nil, "gs[3]", ""},
-	{"string index", []string{"str := \"ab\""}, "int(str[7])", ""},
-	{"integer division by zero, two locals (LOCALDIV)", []string{"a, b := 1, 0"}, "a / b", ""},
-	{"integer division by zero, global divisor (DIV)", []string{"a := 1"}, "a / gz", ""},
-	{"modulo by zero", []string{"a := 1"}, "a % gz", ""},
-	{"field of a nil struct reference", []string{"var t *T"}, "t.n", ""},
-	{"call of a nil function value", []string{"var f func() int"}, "f()", ""},
-	{"call of a nil function-typed global", nil, "gf()", ""},
-	{"slice bounds", []string{"s := []int{1, 2}", "j := 5"}, "len(s[1:j])", ""},
-	{"nil map write, local with constant key (FASTSET)", []string{"var m map[string]int"}, "", "m[\"k\"] = 1"},
-	{"nil map write, global", nil, "", "gm[\"k\"] = 1"},
-	{"explicit panic", nil, "", "panic(\"boom\")"},
-	{"slice store out of range (FASTSETINT)", []string{"s := []int{1}"}, "", "s[4] = 1"},
-	{"field store through nil reference", []string{"var t *T"}, "", "t.n = 1"},
+	{"slice index, constant (FASTGETINT)", []string{"s := []int{1}"}, "s[5]", "", 0},
+	{"slice index, variable", []string{"s := []int{1}", "i := 5"}, "s[i]", "", 0},
+	{"global slice index", nil, "gs[3]", "", 0},
+	{"string index", []string{"str := \"ab\""}, "int(str[7])", "", 0},
+	{"integer division by zero, two locals (LOCALDIV)", []string{"a, b := 1, 0"}, "a / b", "", 0},
+	{"integer division by zero, global divisor (DIV)", []string{"a := 1"}, "a / gz", "", 0},
+	{"modulo by zero", []string{"a := 1"}, "a % gz", "", 0},
+	{"field of a nil struct reference", []string{"var t *T"}, "t.n", "", 0},
+	{"call of a nil function value", []string{"var f func() int"}, "f()", "", 0},
+	{"call of a nil function-typed global", nil, "gf()", "", 0},
+	{"slice bounds", []string{"s := []int{1, 2}", "j := 5"}, "len(s[1:j])", "", 0},
+	{"nil map write, local with constant key (FASTSET)", []string{"var m map[string]int"}, "", "m[\"k\"] = 1", 0},
+	{"nil map write, global", nil, "", "gm[\"k\"] = 1", 0},
+	{"explicit panic", nil, "", "panic(\"boom\")", 0},
+	{"slice store out of range (FASTSETINT)", []string{"s := []int{1}"}, "", "s[4] = 1", 0},
+	{"field store through nil reference", []string{"var t *T"}, "", "t.n = 1", 0},
+	// expressions spanning several lines: the reported line is the failing operator's, as the Go toolchain reports it
+	{"division, line break after the operator", []string{"a, b := 1, 0"}, "(a + 1) /\n\t\t(b * 2)", "", 0},
+	{"index, line break inside the brackets", []string{"s := []int{1}", "i := 5"}, "s[i+\n\t\t4]", "", 0},
+	{"index on the middle line of three", []string{"s := []int{1}", "i := 5", "a := 1"}, "a +\n\t\ts[i] +\n\t\t1", "", 1},
+	{"division on the second line of three", []string{"a, b := 1, 0"}, "(a +\n\t\t1) / (b *\n\t\t2)", "", 1},
+	{"modulo by a global, line break after the operator", []string{"a := 1"}, "a %\n\t\tgz", "", 0},
 }
 
 var c20hosts = []string{"x := %E", "x = %E", "x += %E", "if %E > 0 {", "for %E > 0 {", "return %E", "x = id(%E)", "after fusable statements", "x = 1 +\n\t\t%E"}
@@ -226,6 +233,7 @@ func c20render(p c20prog) (src string, entry string, want []c20frame) {
 					faultLine = emit("\t" + strings.ReplaceAll(h, "%E", f.expr))
 					emit("\treturn x")
 				}
+				faultLine += c20adjust(f, h)
 			}
 		}
 		emit("}")
@@ -242,6 +250,13 @@ func c20render(p c20prog) (src string, entry string, want []c20frame) {
 		want = append(want, c20frame{qual(i - 1), callLines[i-1]})
 	}
 	return b.String(), "c." + name(0), want
+}
+
+// c20adjust: emit returns the last line of the text it wrote; for an expression spanning several lines the expected line
+// is the one of the failing operator.  Hosts that write a statement AFTER the expression before returning the line
+// do so in a separate emit, so only the expression's own line breaks count.
+func c20adjust(f c20fault, host string) int {
+	return f.off - strings.Count(f.expr, "\n")
 }
 
 // c20shape parses the error text into (function, line) pairs.
@@ -339,6 +354,8 @@ func c20progs(thorough bool) []c20prog {
 			out = append(out, c20prog{Word: w, Fault: fi, Host: hi, Pad: 400}, c20prog{Word: w, Fault: fi, Host: hi, Lit: true}, c20prog{Word: w, Fault: fi, Host: hi, Pad: 300, Lit: true}, c20prog{Word: w, Fault: fi, Host: hi, Deep: true})
 		}
 	}
+	// a fault beyond source line 65535 (positions carry 16 bits per field)
+	out = append(out, c20prog{Word: []int{0}, Fault: 4, Host: 0, Pad: 16500}, c20prog{Word: []int{}, Fault: 13, Pad: 16500})
 	// uniform chains of every depth 4..30
 	for k := range c20kinds {
 		for d := 4; d <= 30; d++ {
@@ -384,6 +401,9 @@ func c20run(r *report.Run) {
 				var ks []string
 				for _, k := range p.word() {
 					ks = append(ks, c20kinds[k])
+				}
+				if p.Pad > 0 {
+					src = fmt.Sprintf("(%d unrelated functions of 4 lines each declared first; literal=%v)", p.Pad, p.Lit)
 				}
 				r.Fail(&report.Case{Kind: "trace", Key: fmt.Sprintf("chain [%s]; fault: %s; host: %s; optimizer=%v\n%s", strings.Join(ks, " -> "), c20faults[p.Fault].name, c20hosts[p.Host], mode == 1, src), Input: map[string]any{"prog": p, "optimize": mode == 1}, Want: wants[i], Got: results[i][mode]})
 				break
